@@ -988,3 +988,69 @@ Proof.
   destruct (run_spec cs st (height blk) HW Hm) as ([_ HS] & _ & K2 & _).
   cbv zeta. destruct (HS (eq_trans K2 (eq_trans K Hk))) as [_ _ S3 S4]. split; [apply S4|exact S3].
 Qed.
+
+(* ---------------------------------------------------------------------------------------- *)
+
+(* the weight the (last) entry for a in an add list gives it *)
+Fixpoint lassoc (l : list (N * N)) (a : N) : option N :=
+  match l with
+  | [] => None
+  | (x, w) :: r => match lassoc r a with Some v => Some v | None => if x =? a then Some w else None end
+  end.
+
+Lemma add_loop_cur H l : forall ms t ds ms' t' ds', mbounded ms H ->
+  add_loop H l ms t ds = Some (ms', t', ds') ->
+  mbounded ms' H /\ forall a, m_cur ms' a = match lassoc l a with Some w => Some w | None => m_cur ms a end.
+Proof.
+  induction l as [|[x w] r IH]; intros ms t ds ms' t' ds' Hb Hl; cbn [add_loop] in Hl.
+  - inversion Hl; subst. split; [exact Hb|]. intros a. reflexivity.
+  - unfold sub64, add64, obind in Hl.
+    destruct (unw (m_cur ms x) <=? t); [|discriminate].
+    destruct (t - unw (m_cur ms x) + w <=? u64max); [|discriminate].
+    destruct (m_write_spec ms x H (Some w) Hb) as (B' & C' & O' & _).
+    destruct (IH _ _ _ _ _ _ B' Hl) as (B2 & E). split; [exact B2|].
+    intros a. rewrite (E a). cbn [lassoc]. destruct (lassoc r a) as [v|]; [reflexivity|].
+    destruct (N.eqb_spec x a) as [->|Hn]; [exact C'|]. apply O'. intros C. apply Hn. symmetry. exact C.
+Qed.
+
+Lemma remove_loop_cur H l : forall ms t ds ms' t' ds', mbounded ms H ->
+  remove_loop H l ms t ds = Some (ms', t', ds') ->
+  mbounded ms' H /\ forall a, m_cur ms' a = if existsb (N.eqb a) l then None else m_cur ms a.
+Proof.
+  induction l as [|x r IH]; intros ms t ds ms' t' ds' Hb Hl; cbn [remove_loop] in Hl.
+  - inversion Hl; subst. split; [exact Hb|]. intros a. reflexivity.
+  - destruct (m_cur ms x) as [w|] eqn:Cx.
+    + unfold sub64, obind in Hl. destruct (w <=? t); [|discriminate].
+      destruct (m_write_spec ms x H None Hb) as (B' & C' & O' & _).
+      destruct (IH _ _ _ _ _ _ B' Hl) as (B2 & E). split; [exact B2|].
+      intros a. rewrite (E a). cbn [existsb]. destruct (existsb (N.eqb a) r); [rewrite orb_true_r; reflexivity|].
+      rewrite orb_false_r. destruct (N.eqb_spec a x) as [->|Hn]; [exact C'|apply O'; exact Hn].
+    + destruct (IH _ _ _ _ _ _ Hb Hl) as (B2 & E). split; [exact B2|].
+      intros a. rewrite (E a). cbn [existsb]. destruct (existsb (N.eqb a) r); [rewrite orb_true_r; reflexivity|].
+      rewrite orb_false_r. destruct (N.eqb_spec a x) as [->|Hn]; [exact Cx|reflexivity].
+Qed.
+
+(* the true history, one step: what an accepted UpdateMembers makes of every address *)
+Theorem update_members_pointwise st blk sender add rem st' ms top :
+  Inv st top -> top <= height blk -> update_members st blk sender add rem = Ok (st', ms) ->
+  exists add' rem', validate_members add = Some add' /\ validate_args rem = Some rem' /\
+    has_dup (sort_members add') = false /\
+    forall a, m_cur (members st') a =
+      if existsb (N.eqb a) rem' then None
+      else match lassoc (sort_members add') a with Some w => Some w | None => m_cur (members st) a end.
+Proof.
+  intros HI Hle Hu. apply (Inv_mono _ _ _ HI) in Hle. destruct Hle as [Hs Hb Htb Ht Hu64].
+  unfold update_members in Hu.
+  destruct (validate_members add) as [add'|] eqn:Va; [|discriminate].
+  destruct (has_dup (sort_members add')) eqn:Hd; [discriminate|].
+  destruct (is_admin st sender); [|discriminate]. cbn [negb] in Hu.
+  destruct (validate_args rem) as [rem'|] eqn:Vr; [|discriminate].
+  rewrite Ht in Hu.
+  destruct (add_loop (height blk) (sort_members add') (members st) (m_sum (members st)) []) as [[[ms1 t1] ds1]|] eqn:L1; [|discriminate].
+  destruct (remove_loop (height blk) rem' ms1 t1 ds1) as [[[ms2 t2] ds2]|] eqn:L2; [|discriminate].
+  inversion Hu; subst st' ms. clear Hu.
+  destruct (add_loop_cur _ _ _ _ _ _ _ _ Hb L1) as (B1 & E1).
+  destruct (remove_loop_cur _ _ _ _ _ _ _ _ B1 L2) as (_ & E2).
+  exists add', rem'. split; [reflexivity|]. split; [reflexivity|]. split; [exact Hd|].
+  intros a. cbn [members with_members]. rewrite (E2 a). destruct (existsb (N.eqb a) rem'); [reflexivity|]. apply E1.
+Qed.
